@@ -27,6 +27,9 @@ GMap(e) == [g |-> "map", e |-> e]
 GPtr(e) == [g |-> "ptr", e |-> e]
 GStruct == [g |-> "struct1"]       \* struct { A int `cty:"a"`; B *string `cty:"b"` }
 GCty == [g |-> "ctyvalue"]
+\* two DIFFERENT struct types that share one Go type name ("rec", declared in two function scopes):
+GRec1 == [g |-> "rec1"]            \* struct { A int `cty:"a"` }
+GRec2 == [g |-> "rec2"]            \* struct { A string `cty:"a"`; C bool `cty:"c"` }
 RECURSIVE ImpliedTypeRef(_)
 ImpliedTypeRef(gt) ==
   CASE gt.g \in NumKinds \cup {"bigfloat", "bigint"} -> TNum
@@ -34,6 +37,8 @@ ImpliedTypeRef(gt) ==
     [] gt.g = "slice" -> TList(ImpliedTypeRef(gt.e)) [] gt.g = "map" -> TMap(ImpliedTypeRef(gt.e))
     [] gt.g = "ptr" -> ImpliedTypeRef(gt.e)
     [] gt.g = "struct1" -> TObj([a |-> TNum, b |-> TStr])
+    [] gt.g = "rec1" -> TObj([a |-> TNum])
+    [] gt.g = "rec2" -> TObj([a |-> TStr, c |-> TBool])
     [] gt.g = "ctyvalue" -> TDyn
 \* the Go type of an abstract Go value is carried in the value: gv.t
 RECURSIVE ToCtyRef(_)
@@ -45,6 +50,8 @@ ToCtyRef(gv) ==
     [] t.g = "map" -> IF gv.nil THEN Null(ImpliedTypeRef(t)) ELSE MapV(ImpliedTypeRef(t), [k \in DOMAIN gv.m |-> ToCtyRef(gv.m[k])])
     [] t.g = "ptr" -> IF gv.nil THEN Null(ImpliedTypeRef(t)) ELSE ToCtyRef(gv.v)
     [] t.g = "struct1" -> MapV(TObj([a |-> TNum, b |-> TStr]), [a |-> ToCtyRef(gv.a), b |-> ToCtyRef(gv.b)])
+    [] t.g = "rec1" -> MapV(TObj([a |-> TNum]), [a |-> ToCtyRef(gv.a)])
+    [] t.g = "rec2" -> MapV(TObj([a |-> TStr, c |-> TBool]), [a |-> ToCtyRef(gv.a), c |-> ToCtyRef(gv.c)])
     [] t.g = "ctyvalue" -> gv.v
 \* abstract Go values are compared with numbers numerically
 RECURSIVE GoEq(_, _)
@@ -55,6 +62,8 @@ GoEq(x, y) ==
        [] x.t.g = "map" -> x.nil = y.nil /\ (~x.nil => DOMAIN x.m = DOMAIN y.m /\ \A k \in DOMAIN x.m : GoEq(x.m[k], y.m[k]))
        [] x.t.g = "ptr" -> x.nil = y.nil /\ (~x.nil => GoEq(x.v, y.v))
        [] x.t.g = "struct1" -> GoEq(x.a, y.a) /\ GoEq(x.b, y.b)
+       [] x.t.g = "rec1" -> GoEq(x.a, y.a)
+       [] x.t.g = "rec2" -> GoEq(x.a, y.a) /\ GoEq(x.c, y.c)
        [] x.t.g = "ctyvalue" -> x.v = y.v
        [] OTHER -> x = y
 CtyMatch(o, r) == TEquals(o.ty, r.ty) /\ o.st = r.st /\ (IF o.st = "k" /\ o.ty.k = "number" THEN (IF HasRank(o.v) /\ HasRank(r.v) THEN NumSame(o.v, r.v) ELSE o.v = r.v)
@@ -71,7 +80,7 @@ Nilable(gt) == gt.g \in {"slice", "map", "ptr", "ctyvalue"}
 RECURSIVE ShapeR(_)
 ShapeR(gt) == IF gt.g = "ptr" THEN ShapeR(gt.e) ELSE
               CASE gt.g \in NumKinds \cup {"bigfloat", "bigint"} -> {"number"} [] gt.g = "string" -> {"string"} [] gt.g = "bool" -> {"bool"}
-                [] gt.g = "slice" -> {"list", "set", "tuple"} [] gt.g = "map" -> {"map"} [] gt.g = "struct1" -> {"object", "tuple"}     \* a tuple decodes into a struct field by field
+                [] gt.g = "slice" -> {"list", "set", "tuple"} [] gt.g = "map" -> {"map"} [] gt.g \in {"struct1", "rec1", "rec2"} -> {"object", "tuple"}     \* a tuple decodes into a struct field by field
                 [] gt.g = "ctyvalue" -> {"bool", "number", "string", "list", "set", "map", "tuple", "object", "dynamic"}
 RECURSIVE HasCty(_)
 HasCty(gt) == gt.g = "ctyvalue" \/ (gt.g \in {"slice", "map", "ptr"} /\ HasCty(gt.e))
@@ -90,6 +99,7 @@ NonNFC(gv) == CASE gv.t.g = "string" -> \E i \in 1..(Len(gv.s) - 1) : gv.s[i] = 
                 [] gv.t.g = "map" -> ~gv.nil /\ \E k \in DOMAIN gv.m : NonNFC(gv.m[k])
                 [] gv.t.g = "ptr" -> ~gv.nil /\ NonNFC(gv.v)
                 [] gv.t.g = "struct1" -> NonNFC(gv.b)
+                [] gv.t.g = "rec2" -> NonNFC(gv.a)
                 [] OTHER -> FALSE
 GrtFailed(e) ==      \* [gv, it = [ok, t], cv = R, back = [ok, gv]]
   (IF (~e.it.ok /\ e.it.fail = "panic") \/ (~e.cv.ok /\ e.cv.fail = "panic") \/ (~e.back.ok /\ e.back.fail = "panic") THEN {"C18.NoPanic"} ELSE {})
